@@ -459,6 +459,9 @@ COMMIT_GROUPS = {
               r"BroadcastFuture::new$|BroadcasterInner::(futures|add)$|Sender::send(_owned)?$|CachedRwLock::(write|write_scratchpad)$|"
               r"multishot::\w+::(send|recv)$|oneshot::\w+::send$|^std::vec::Vec::push$",
               "message delivery through ports: sender creation, fan-out, awaiting, reply hand-over, connection registration"),
+    "lockfree": (r"^channel::queue::|^util::(slot|task_set|sync_cell|cached_rw_lock)::|^executor::mt_executor::(pool_manager|injector)::",
+                 r"Atomic\w*::(store|compare_exchange\w*|fetch_or|fetch_and|fetch_add|fetch_sub|swap)$|UnsafeCell::with(_mut)?$|^std::mem::replace$",
+                 "lock-free protocols (mailbox queue, slot, task set, seqlock, cached lock, pool manager, injector): every protocol step that a branch commits to is performed"),
     "executor-drop": (r"^<executor::|^executor::", r"JoinHandle::join$|CancelToken::cancel$|Signal::set$|Slab::drain$|Vec::drain$",
                       "executor shutdown steps"),
     "mailbox-signals": (r"^channel::|^<channel::", r"notify(_one|_all)?$|channel::queue::Queue::(push|pop|close)$",
